@@ -58,27 +58,30 @@ parsing the text `iterations()` writes for `ls` gives exactly the dictionary
 `iterations()` holds in memory (`catOf ls`).  Hypotheses (`LineOK`):
 * variable lists are non-empty and every name is printable ASCII without
   space, `'`, `\` and `,` (`nameOK`);
-* the two free-text lines (`Reading iterations in: <path>`,
-  `Could not find 3D data in <path>`) contain none of the five markers the
-  classifier tests with `in` — ` === restart `, `3D variables available`,
-  `->`, `rl = `, `Checkpoints available at its` — and no line break.
-Nothing is assumed about the numeric lines. -/
+* the path printed on the two free-text lines (`Reading iterations in: <path>`,
+  `Could not find 3D data in <path>`) contains no line break.
+Nothing else is assumed about the path — it may contain ` === restart `,
+`->`, `rl = `, `3D variables available`, `Checkpoints available at its`, … —
+and nothing about the numeric lines. -/
 theorem print_parse_roundtrip (ls : List Line) (hok : ∀ l ∈ ls, LineOK l)
     (hstart : ls = [] ∨ ∃ n rest, ls = .restart n :: rest) :
     readIterationsText (universalNl (printLines ls)) = .ok (catOf ls) :=
   print_parse_roundtrip_lemma ls hok hstart
 
-/-- The full-strength statement (no hypothesis on the path) -/
-def PrintParseUnconditional : Prop :=
+/-- The statement without the line-break hypothesis on paths -/
+def PrintParseAnyPath : Prop :=
   ∀ ls : List Line, (∃ n rest, ls = .restart n :: rest) →
+    (∀ l ∈ ls, match l with | .vars v => v ≠ [] ∧ ∀ n ∈ v, nameOK n = true | _ => True) →
     readIterationsText (universalNl (printLines ls)) = .ok (catOf ls)
 
-/-- … is false in the code as it is: a path containing `->` makes
-`int(li.split(' ')[2])` raise ValueError on the `Reading iterations in:` line
-(replayed on the real code by tools/props/C18.py, known finding). -/
-theorem print_parse_roundtrip_unconditional_is_false : ¬ PrintParseUnconditional := by
+/-- … is false: a path containing a newline followed by `->` starts a new
+line that the parser takes for an `it = a -> b` line (IndexError).  The
+hypothesis is forced; the real code is run at this point by tools/props/C18.py
+and the outcome recorded in the evidence. -/
+theorem print_parse_linebreak_hypothesis_is_necessary : ¬ PrintParseAnyPath := by
   intro h
-  have := h [.restart 0, .reading ['/', 'a', '-', '>', 'b', '/', 'x', '.', 'h', '5']] ⟨0, _, rfl⟩
+  have := h [.restart 0, .reading ['/', 'a', '\n', '-', '>']] ⟨0, _, rfl⟩
+    (by intro l hl; simp at hl; rcases hl with rfl | rfl <;> trivial)
   revert this
   decide +kernel
 
@@ -196,47 +199,70 @@ example : split [','] (joinSep [','] [['a', ',', 'b']]) ≠ [['a', ',', 'b']] :=
 
 /-! ## T6 — overall merge -/
 
-/-- What can be proven: when no restart has a single iteration at any level
-(`NoSingles`), `collect_overall_iterations` never evaluates
-`x in np.linspace(a, b, stride)`; its result is the same for every
-membership test put in its place. -/
-theorem overall_no_singles_independent_of_linspace (mem1 mem2 : MemTest) (cat : Cat) (h : NoSingles cat) :
+/-- **Full strength.**  For every catalogue, every level `rl` and every entry
+`overall['rl = <rl>'] = sit` returned by `collect_overall_iterations`: an
+iteration is described by `sit` iff it is described by the segment of some
+restart at that level — provided the per-restart segments are what
+`iterations()` writes for arithmetic progressions (`WFseg`: `[a]` or
+`[a, b, d]` with `a < b`, `0 < d`, `d ∣ b - a`) and every merge of two ranges
+of EQUAL stride along the way is of the continuing kind (`Chain`/`stepOK`: the
+second range starts on the grid of the first, not beyond `max + d`, and
+reaches at least as far).  The membership test `x in range(min, max+1, d)` is
+exact, so merges with single iterations need no hypothesis.  The merge never
+raises under these hypotheses (`merge_never_raises`). -/
+theorem overall_faithful (cat : Cat) (ov : List (Str × List (List Int))) (h : overall cat = .ok ov)
+    (rl : Nat) (sit : List (List Int)) (hs : dget ov (mRl ++ toDec rl) = some sit)
+    (hw : ∀ s ∈ levelSegs cat (mRl ++ toDec rl), WFseg s) (hch : Chain [] (levelSegs cat (mRl ++ toDec rl))) :
+    ∀ x, inSit x sit ↔ ∃ s ∈ levelSegs cat (mRl ++ toDec rl), inSegP x s :=
+  overall_faithful_lemma cat ov h rl sit hs hw hch
+
+theorem merge_never_raises (segs : List (List Int)) (hw : ∀ s ∈ segs, WFseg s) (hch : Chain [] segs) :
+    ∃ r, foldlE (mergeStep rangeMem) [] segs = .ok r ∧ (∀ s ∈ r, WFseg s) ∧
+      ∀ x, inSit x r ↔ ∃ s ∈ segs, inSegP x s := by
+  obtain ⟨r, h1, h2, h3⟩ := merge_faithful segs [] (by simp) hw hch
+  exact ⟨r, h1, h2, fun x => by rw [h3 x]; simp [inSit]⟩
+
+/-- one merge step, whatever the state: faithful under `stepOK` -/
+theorem merge_step_faithful (sit : List (List Int)) (cur : List Int)
+    (hw : ∀ s ∈ sit, WFseg s) (hc : WFseg cur) (hok : stepOK sit cur) : StepGoal sit cur :=
+  mergeStep_faithful sit cur hw hc hok
+
+/-- When no restart has a single iteration at any level the merge does not
+consult the membership test at all. -/
+theorem overall_no_singles_independent_of_membership (mem1 mem2 : MemTest) (cat : Cat) (h : NoSingles cat) :
     overallWith mem1 cat = overallWith mem2 cat :=
   overall_no_singles_lemma mem1 mem2 cat h
-
-/-- `np.linspace(a, b, stride)` has `stride` points; it is not the progression
-`a, a+stride, …, b`: 4 is an iteration of `np.arange(0, 6, 2)` (inclusive) and
-not an element of `np.linspace(0, 6, 2) = [0., 6.]`. -/
-theorem linspace_is_not_membership :
-    (4 : Nat) ∈ apList 0 2 4 ∧ linMem 4 0 6 2 = .ok false := by
-  decide +kernel
-
-/-- `x` is described by a segment `[a, b, d]` (inclusive progression) or `[a]` -/
-def inSeg (x : Int) : List Int → Bool
-  | [a, b, d] => decide (a ≤ x) && decide (x ≤ b) && (if d == 0 then x == a else (x - a) % d == 0)
-  | [a] => x == a
-  | _ => false
-
-/-- The full-strength statement for the merge: the overall segments of a level
-describe exactly the iterations of the per-restart segments. -/
-def OverallFaithful : Prop :=
-  ∀ (cat : Cat) (rlkey : Str) (ov : List (Str × List (List Int))), overall cat = .ok ov →
-    ∀ x : Int, ((levelSegs cat rlkey).any (inSeg x)) = (((dget ov rlkey).getD []).any (inSeg x))
 
 def witnessCat : Cat :=
   [(0, [(mRl ++ ['0'], Val.ints [0, 6, 2])]), (1, [(mRl ++ ['0'], Val.ints [4])])]
 
-/-- Restart 0 holds iterations 0,2,4,6; restart 1 (restarted from 4) holds the
-single iteration 4.  The code returns `[[0, 4, 2]]`: iteration 6 is dropped. -/
-theorem overall_drops_iteration_witness :
-    overall witnessCat = .ok [(mRl ++ ['0'], [[0, 4, 2]])] := by
+/-- the former counterexample (restart 0 at 0,2,4,6; restart 1 restarted from 4
+with the single iteration 4) is now merged correctly -/
+theorem overall_single_inside_range :
+    overall witnessCat = .ok [(mRl ++ ['0'], [[0, 6, 2]])] := by
   decide +kernel
 
-theorem overall_full_is_false : ¬ OverallFaithful := by
-  intro h
-  have := h witnessCat (mRl ++ ['0']) _ overall_drops_iteration_witness 6
-  revert this
+/-- The `Chain` hypothesis is necessary: two ranges of equal stride with a gap
+between them are merged into one range that describes iterations 6 and 8,
+which no restart holds (the code sets `itmax` without looking). -/
+theorem overall_equal_stride_gap_witness :
+    overall [(0, [(mRl ++ ['0'], Val.ints [0, 4, 2])]), (1, [(mRl ++ ['0'], Val.ints [10, 12, 2])])]
+      = .ok [(mRl ++ ['0'], [[0, 12, 2]])] := by
   decide +kernel
+
+/-- non-vacuity of `overall_faithful`: the hypotheses hold for `witnessCat` -/
+example : (∀ s ∈ levelSegs witnessCat (mRl ++ toDec 0), WFseg s) ∧ Chain [] (levelSegs witnessCat (mRl ++ toDec 0)) := by
+  have hl : levelSegs witnessCat (mRl ++ toDec 0) = [[0, 6, 2], [4]] := by decide +kernel
+  rw [hl]
+  constructor
+  · intro s hs
+    simp at hs
+    rcases hs with rfl | rfl
+    · exact Or.inr ⟨0, 6, 2, rfl, by decide, by decide, ⟨3, by decide⟩⟩
+    · exact Or.inl ⟨4, rfl⟩
+  · refine ⟨fun p0 p1 d c0 c1 h _ => by simp at h, fun r _ => ⟨?_, fun _ _ => trivial⟩⟩
+    intro p0 p1 d c0 c1 _ h
+    simp at h
 
 /-! ## Non-vacuity -/
 
